@@ -29,3 +29,9 @@ lean_exe driver where
 lean_lib StatrsDraft where
   roots := #[`Statrs.Draft]
   globs := #[.submodules `Statrs.Draft]
+
+/-- definitions of a regenerated model that differ from the reference model, and their equations (written by modeleq.py
+    during a check run; not a default target, not tracked) -/
+lean_lib StatrsGenNew where
+  roots := #[`Statrs.GenNew]
+  globs := #[.submodules `Statrs.GenNew]
